@@ -2,10 +2,10 @@ SPECIFICATION Spec
 CONSTANTS
   L = 8
   ProofLens = {1, 3}
-  MaxHeight = 22
+  MaxHeight = 19
   MaxEpoch = 2
   MaxFaults = 1
   MaxEnv = 1
   MaxLag = 1
 INVARIANTS TypeOK OnlyNextEpoch ExactHeaders AllMined OnlyWhenEligible MovesOnAfterRelayReached NeverBehindProven RejectedEndsRun
-  WaitsForOwnEpoch WorkOnlyWhenEligible AcceptedIsRight
+  WaitsForOwnEpoch WorkOnlyWhenEligible AcceptedIsRight FetchOnlyMined
